@@ -161,7 +161,7 @@ class DAGRunConcurrentManager(DAGRunManagerLike):
             await self._lock_manager.wait_for_condition(
                 self._alias_run_method,
                 lambda: (
-                    bool(self._get_first_error_in_tasks(self._coro_tasks))
+                    self._get_first_error_in_tasks(self._coro_tasks) is not None
                     or self._node_storage.exists_node_result(self.dag.output_node)
                 ),
             )
@@ -181,7 +181,7 @@ class DAGRunConcurrentManager(DAGRunManagerLike):
         logger.debug('Getting the result of the dag')
 
         error = self._get_first_error_in_tasks(self._coro_tasks)
-        if error:
+        if error is not None:
             raise error
 
         return self._node_storage.get_node_result(self.dag.output_node, with_hidden=True)
